@@ -34,6 +34,8 @@ def mpi (s : Stack) : Bool × Option Nat × List (Eventgroup × Addr) × List (A
 @[simp] theorem mpi_with_storeLog (s : Stack) (x : List (Bool × SvcKey × Addr)) : mpi { s with storeLog := x } = mpi s := rfl
 @[simp] theorem mpi_with_refreshLog (s : Stack) (x : List (Addr × SvcKey × Nat × Nat)) : mpi { s with refreshLog := x } = mpi s := rfl
 @[simp] theorem mpi_with_armLog (s : Stack) (x : List (Cb × Nat × Nat)) : mpi { s with armLog := x } = mpi s := rfl
+@[simp] theorem mpi_with_subMarks (s : Stack) (x : List (Option Nat × Nat)) : mpi { s with subMarks := x } = mpi s := rfl
+@[simp] theorem mpi_markRound (s : Stack) (n : Nat) : mpi (s.markRound n) = mpi s := rfl
 @[simp] theorem mpi_with_found_refreshLog (s : Stack) (x : TStore SvcKey) (y : List (Addr × SvcKey × Nat × Nat)) : mpi { s with found := x, refreshLog := y } = mpi s := rfl
 @[simp] theorem mpi_with_found (s : Stack) (x : TStore SvcKey) : mpi { s with found := x } = mpi s := rfl
 @[simp] theorem mpi_with_found_storeLog (s : Stack) (x : TStore SvcKey) (y : List (Bool × SvcKey × Addr)) : mpi { s with found := x, storeLog := y } = mpi s := rfl
@@ -106,8 +108,8 @@ theorem mpi_cancelTimer_other (s : Stack) (own : Cb → Bool) (t : Option Nat) (
   mpi_cancelTimer_other s _ t (fun cb h => by cases cb <;> simp_all [isSvcExpiry, isMirCb])
 @[simp] theorem mpi_cancelTimer_svcFor (s : Stack) (a : Addr) (k : SvcKey) (t : Option Nat) : mpi (s.cancelTimer (isSvcExpiryFor a k) t) = mpi s :=
   mpi_cancelTimer_other s _ t (fun cb h => by cases cb <;> simp_all [isSvcExpiryFor, isMirCb])
-@[simp] theorem mpi_cancelTimer_sleep (s : Stack) (t : Option Nat) : mpi (s.cancelTimer isSleep t) = mpi s :=
-  mpi_cancelTimer_other s _ t (fun cb h => by cases cb <;> simp_all [isSleep, isMirCb])
+@[simp] theorem mpi_cancelTimer_sleep (s : Stack) (tid : Tid) (t : Option Nat) : mpi (s.cancelTimer (isSleepFor tid) t) = mpi s :=
+  mpi_cancelTimer_other s _ t (fun cb h => by cases cb <;> simp_all [isSleepFor, isMirCb])
 
 @[simp] theorem isMir_connLost (p : Part) : isMirCb (.connLost p) = false := rfl
 @[simp] theorem isMir_expiredSvc (a : Addr) (k : SvcKey) : isMirCb (.expiredSvc a k) = false := rfl
